@@ -309,4 +309,34 @@ def c10_f(ctx: Ctx):
     return res
 
 
-RULES = [c10_a, c10_b, c10_c, c10_d, c10_e, c10_f]
+@rule("C10-g")
+def c10_g(ctx: Ctx):
+    """A rename onto the cache / document file name installs only a temporary that the same function has just written and closed: a `~` file found lying around
+    (left by an interrupted writer) is torn by definition and is never moved into place."""
+    R = "C10-g"
+    out = []
+    n = 0
+    for f in ctx.prog.funcs.values():
+        if f.module.is_dep or not f.module.name.startswith("signac") or f.module.name == "signac.__main__":
+            continue
+        for c in body_nodes(f):
+            if not (isinstance(c, ast.Call) and common.ext_name(ctx, f, c) in ("os.replace", "os.rename", "shutil.move") and len(c.args) >= 2):
+                continue
+            dst = canon(common.inline_at(ctx, f, c.args[1], c))
+            if not ("FN_CACHE" in dst or "FN_DOCUMENT" in dst):
+                continue
+            n += 1
+            k = f"{f.qual}|installs-own-temporary"
+            src = common.inline_at(ctx, f, c.args[0], c)
+            writes = [e for e in ctx.effects.direct(f) if e.kind in ("open-write", "write") and e.target is not None
+                      and canon(common.inline_at(ctx, f, e.target, e.node)) == canon(src)]
+            if writes:
+                out.append(ctx.ok(R, f, c, "the file moved into place is the temporary this function wrote (ordering: C10-c)", construct=k))
+            else:
+                out.append(ctx.viol(R, f, c, f"{canon(c)[:70]} installs a file this function did not write: a left-over temporary of an interrupted writer is torn (that is why it was "
+                                    "never renamed), so every later reader of the cache fails with EOFError / JSONDecodeError", construct=k))
+    if not n:
+        out.append(ctx.inc(R, None, None, "no rename onto a cache / document file name found"))
+    return out
+
+RULES = [c10_a, c10_b, c10_c, c10_d, c10_e, c10_f, c10_g]
